@@ -8,6 +8,7 @@ import (
 	"go/ast"
 	"go/constant"
 	"go/token"
+	"go/types"
 	"strings"
 
 	"golang.org/x/tools/go/ssa"
@@ -1339,5 +1340,106 @@ func acceptedIntervalsArePositive(c *eng.Ctx) {
 			"no comparison of Interval.Interval with zero in IsValid")
 		v := c.Fn("pkg/option.DatabaseOption.Validate")
 		c.Check(len(p.Sites(v, eng.AnyCallTo("pkg/option.Intervals.IsValid"))) >= 1, "validate-calls-it", nil, v, "DatabaseOption.Validate calls Intervals.IsValid", "")
+	})
+}
+
+// ---- F59 (C16): a family group always contains the row that opened it -------------------------------------------------------------------
+func familyGroupContainsItsFirstRow(c *eng.Ctx) {
+	p := c.P
+	const T = "series/metric.BrokerBatchShardFamilyIterator"
+	c.Rule("PASS", T+".HasNextFamily{the row that opens a group belongs to it: the iteration always advances}", func() {
+		f := c.Fn(T + ".HasNextFamily")
+		// the store that opens a new group
+		open := c.Some(f, eng.StoreField(T+".groupStart"), "itr.groupStart = itr.groupEnd")
+		contains := c.Some(f, eng.AnyCallTo("pkg/timeutil.TimeRange.Contains"), "timeRange.Contains(ts)")
+		// increments of groupEnd that do not depend on the range test
+		var free []eng.Site
+		for _, st := range p.Sites(f, eng.StoreField(T+".groupEnd")) {
+			v, _ := storedValue(st.Instr)
+			base, off := eng.SplitConstOffset(v)
+			if off != 1 || base == nil || !eng.DependsOnField(base, T+".groupEnd") {
+				continue
+			}
+			conds, _ := eng.GuardingConds(f, st.Instr)
+			dep := false
+			for _, cd := range conds {
+				for _, ct := range contains {
+					if eng.DependsOn(cd, func(x ssa.Value) bool { return x == ct.Instr.(ssa.Value) }) {
+						dep = true
+					}
+				}
+			}
+			if !dep {
+				free = append(free, st)
+			}
+		}
+		n := 0
+		for _, o := range open {
+			v, _ := storedValue(o.Instr)
+			if !eng.DependsOnField(v, T+".groupEnd") {
+				continue // the same-family shortcut stores a constant
+			}
+			n++
+			_, stuck := eng.PathExists(eng.PathQuery{Fn: f, After: o.Instr,
+				Target:  func(x ssa.Instruction) bool { _, ok := x.(*ssa.Return); return ok },
+				Blocked: func(x ssa.Instruction) bool { return inSites(x, free) }})
+			c.Check(!stuck, fmt.Sprintf("first-row-taken-unconditionally[%d]", n), o.Instr, f,
+				"after a group is opened at the current row, that row is taken into it whatever the family range computed from its timestamp says (for a timestamp just below a calendar boundary - e.g. -1, a common 'unset' value - the computed range does not contain the timestamp itself): otherwise HasNextFamily answers 'no more families' and every remaining row of the shard is dropped while Write reports success",
+				"a return is reachable after opening the group without an unconditional groupEnd++")
+		}
+		c.Check(n >= 1, "group-open-found", nil, f, "HasNextFamily opens a group at the current row", "")
+	})
+}
+
+// ---- F60 (C11): the aggregators of one container are reduced once ------------------------------------------------------------------------
+func dataLoadContextReducedOnce(c *eng.Ctx) {
+	c.Rule("ATOMIC", "query/operator.leafReduce.Execute{the reduce of a data-load context is claimed, not observed}", func() {
+		f := c.Fn("query/operator.leafReduce.Execute")
+		red := c.Some(f, invokeOn(".executeCtx", "Reduce"), "op.executeCtx.Reduce(…)")
+		for i, r := range red {
+			conds, _ := eng.GuardingConds(f, r.Instr)
+			claimed := false
+			var seen, byValue []string
+			for _, cd := range conds {
+				eng.WalkExpr(cd, func(x ssa.Value) bool {
+					cl, ok := x.(*ssa.Call)
+					if !ok {
+						return true
+					}
+					n := calleeName(cl)
+					if fa, m, _ := eng.AtomicOp(cl); fa != nil {
+						n = m
+					}
+					seen = append(seen, n)
+					switch n {
+					case "CompareAndSwap", "CAS", "Dec", "Inc", "Add", "Sub", "Swap":
+						if len(cl.Common().Args) > 0 && (eng.DependsOnField(cl.Common().Args[0], "flow.DataLoadContext.PendingDataLoadTasks") ||
+							eng.DependsOn(cl.Common().Args[0], func(y ssa.Value) bool {
+								fa, ok := y.(*ssa.FieldAddr)
+								if !ok || !strings.HasPrefix(eng.FieldKeyOfAddr(fa), "flow.DataLoadContext.") {
+									return false
+								}
+								// every stage works on a COPY of the context (groupingStage.NextStages): only state behind a pointer
+								// is shared by the copies - a flag held by value would be claimed once per stage
+								pt, isP := fa.Type().Underlying().(*types.Pointer)
+								if !isP {
+									return false
+								}
+								_, shared := pt.Elem().Underlying().(*types.Pointer)
+								if !shared {
+									byValue = append(byValue, eng.FieldKeyOfAddr(fa))
+								}
+								return shared
+							})) {
+							claimed = true
+						}
+					}
+					return true
+				})
+			}
+			c.Check(claimed, fmt.Sprintf("reduce-claimed-by-an-atomic-read-modify-write[%d]", i), r.Instr, f,
+				"the data-load stages of the families of one query share one context (counter and aggregators) and run concurrently; every stage ends with this operator. Whether it reduces must be decided by an atomic read-modify-write on that context (a CompareAndSwap flag, or the result of the decrement): a plain Load() == 0 lets two stages that finish together both reduce, and the second aggregates the same series again before the first resets them - doubled values",
+				"the reduce is guarded only by: "+strings.Join(seen, ", ")+"; flags held by value in the copied context: "+strings.Join(byValue, ", "))
+		}
 	})
 }
